@@ -227,6 +227,9 @@ func c05(c *eng.Ctx) {
 	c.Rule("R4", "per (cluster, schema) isolation: limiter caches/limiters are constructed only at their owning sites; the single shared default limiter is exempt (unlimited); the per-schema table is keyed by the schema name verbatim", 8)
 	c.Rule("R5", "limit wiring: the size given to the in-flight bucket derives from the schema's max (constructor and resize)", 3)
 
+	c.Rule("R6", "a changed limit is always applied: in localWrapper.Sync every path from the edge 'schema type is MaxRequestsInflight' to an exit passes a Resize call (no test on the new value skips it)", 1)
+	c05ResizeApplied(c, "R6", "MaxRequestsInflight")
+
 	// ---- R1: callers outside the flow-control packages
 	sp := pairingSpec{
 		isAcquire:      func(ci ssa.CallInstruction) bool { return isFCCall(ci, iface, "TryAcquire") },
